@@ -25,7 +25,8 @@ RULE = ("(a) exactness cases: a recursive data class (Schema or DataClass base; 
         "'T'=None, List['T'], Dict[str,'T'], Dict[float,'T'], Tuple[int,'T'], Tuple['T',...], Union['T',int,None], "
         "Union[int,List['T']]; 1/4 of cases use two mutually recursive classes) with class Options(max_depth=d), d in {None,1..5}; "
         "input = chain of depth k in 1..d+3 where each level picks a link kind and a position (list index 0/1/last, dict key "
-        "'k'/''/'a b', float key, tuple slot, union branch) with shallow sibling fillers; plus cyclic inputs. Oracle: accept <=> k<=d. "
+        "'k'/''/'a b', float key, tuple slot, union branch) with shallow sibling fillers; 1/4 of the chains give one nested level as JSON text "
+        "instead of a mapping; plus cyclic inputs. Oracle: accept <=> k<=d. "
         "(b) cost curves: chain depth n=3..8 (and width 10..1000) through each link kind x class Options stage count "
         "(no flag / one flag / both flags) x leaf (exact instance / raw value needing conversion / one invalid leaf at the bottom); "
         "work = counting-converter invocations and LINE steps. Violation <=> W(n+1)/W(n) > 1.9 for every n in 3..7 (a polynomial of "
@@ -169,7 +170,9 @@ def make_case(i, rng, tier):
                 # how the limit reaches the classes: their own Options, or overriding runtime options given to the entry point
                 "deliver": "override" if (d is not None and rng.random() < 0.3) else "class",
                 # the limit is a hard stop whatever the error-reporting mode
-                "collect": rng.random() < 0.25}
+                "collect": rng.random() < 0.25,
+                # one nested level written as JSON text instead of a mapping (still one level of the input)
+                "text_level": rng.randint(1, max(1, k - 1)) if (k > 1 and rng.random() < 0.25) else None}
     j = (i - N_EXACT[tier]) % 216
     FL = [{}, {"no_data_loss": True}, {"no_explicit_cast": True}, {"no_data_loss": True, "no_explicit_cast": True}]
     LEAVES = ["exact", "raw", "bad", "int-raw", "int-bad"]
@@ -210,6 +213,13 @@ def run_case(case, ctx):
     try:
         data, levels = chain(path, 1)
         cyc = case["cyclic"]
+        tl = case.get("text_level")
+        if tl is not None and not cyc and tl < len(levels) and path[tl - 1][0] in ("opt", "direct", "lst", "dct", "tup", "tvar"):
+            import json
+            attach(levels[tl - 1], path[tl - 1][0], path[tl - 1][1], json.dumps(levels[tl]), 1)
+            ctx.count("inputs_with_a_level_as_json_text")
+        else:
+            tl = None
         if cyc:
             if case["mutual"] and len(levels) % 2 == 1:
                 # bottom level is class a again: only its plain link exists, and it must lead to a class-b level
@@ -231,9 +241,9 @@ def run_case(case, ctx):
         ctx.count("limit_delivered_by:" + deliver)
         links = tuple(p[0] for p in path)
         poss = tuple(str(p[1]) for p in path)
-        sig = (case["base"], case["mutual"], links, poss, d, k, cyc, deliver, bool(cflags))
+        sig = (case["base"], case["mutual"], links, poss, d, k, cyc, deliver, bool(cflags), tl)
         wit = {"base": case["base"], "mutual": case["mutual"], "max_depth": d, "collect_errors": bool(cflags), "limit_given_by": "class Options" if deliver == "class" else "__from__(options=Options(max_depth=d, override=True))", "input_depth": "cyclic" if cyc else k,
-               "path": [f"{l}[{p}]" for l, p in path], "outcome": repr(out)}
+               "path": [f"{l}[{p}]" for l, p in path], "outcome": repr(out), "level_given_as_json_text": tl}
         if out.kind == "steps" and d is not None:
             # with a limit of d levels a parse touches at most the first d levels of the input: 4e6 LINE steps are
             # three orders of magnitude above any such parse seen here (evidence: max steps of a terminating case)
